@@ -4,6 +4,8 @@ from __future__ import annotations
 
 import ast
 
+import sympy as sp
+
 from engine import core, pycfg, symalg
 from engine.core import AnalysisError
 
@@ -512,6 +514,116 @@ def _r09e(rep):
             rep.unknown(f"R09e {cn}.{mn}: degree of {where} in the weights not determined")
 
 
+
+def _r09h(rep):
+    """Which reciprocal axes a rotation exchanges: decided for a generic integer matrix, signs included."""
+    from engine import symnp
+
+    SYM = "phonopy/structure/symmetry.py"
+    rep.rule("R09h", "lattice-vector equivalence: for a generic rotation r, flag k of get_lattice_vector_equivalence is set exactly when the absolute value of column i of r is the unit vector j or that of column j is the unit vector i, (i, j) = (1, 2), (2, 0), (0, 1) for k = 0, 1, 2 -- so that a -> -b counts like a -> b (symbolic evaluation of the function body on a 3x3 matrix of symbols; Boolean equivalence over the atoms |r_mc| == 0/1)", 3)
+    fn = core.find_def(SYM, "get_lattice_vector_equivalence")
+    par = fn.args.args[0].arg
+    R = symnp.matrix("r", 3, 3)
+    ev = symnp.Evaluator({}, where=f"{SYM}::get_lattice_vector_equivalence")
+    result = {}
+
+    def literal_tuple(node):
+        try:
+            return ast.literal_eval(node)
+        except Exception:
+            return None
+
+    def bind(target, value):
+        if isinstance(target, ast.Name):
+            ev.env[target.id] = value
+        elif isinstance(target, ast.Tuple) and isinstance(value, (tuple, list)) and len(value) == len(target.elts):
+            for t_, v_ in zip(target.elts, value):
+                bind(t_, v_)
+        else:
+            raise AnalysisError(f"{SYM}: cannot bind {core.src(target)}")
+
+    def block(stmts, conds):
+        for st in stmts:
+            if isinstance(st, ast.Expr) and isinstance(st.value, ast.Constant):
+                continue
+            if isinstance(st, ast.Assign) and len(st.targets) == 1 and isinstance(st.targets[0], ast.Name):
+                ev.env[st.targets[0].id] = ev.ev(st.value)
+            elif isinstance(st, ast.Assign) and len(st.targets) == 1 and isinstance(st.targets[0], ast.Subscript) and isinstance(st.targets[0].value, ast.Name):
+                lst = ev.env.get(st.targets[0].value.id)
+                ix = st.targets[0].slice
+                k = ix.value if isinstance(ix, ast.Constant) else ev.env.get(getattr(ix, "id", None))
+                val = ev.ev(st.value)
+                if not isinstance(lst, list) or not isinstance(k, int) or isinstance(val, list):
+                    raise AnalysisError(f"{SYM}: store '{core.src(st)}' outside the modelled fragment")
+                c = sp.And(*conds) if conds else sp.true
+                lst[k] = sp.Or(sp.And(c, val), sp.And(sp.Not(c), lst[k]))
+            elif isinstance(st, ast.If):
+                c = ev.ev(st.test)
+                if isinstance(c, list):
+                    raise AnalysisError(f"{SYM}: truth value of an array in '{core.src(st.test)}'")
+                block(st.body, conds + [c])
+                block(st.orelse, conds + [sp.Not(c)])
+            elif isinstance(st, ast.For):
+                it = st.iter
+                if isinstance(it, ast.Name) and it.id == par:
+                    bind(st.target, R)
+                    block(st.body, conds)
+                    continue
+                seq = None
+                if isinstance(it, ast.Call) and core.src(it.func) == "enumerate" and len(it.args) == 1:
+                    inner = literal_tuple(it.args[0])
+                    if inner is None and isinstance(it.args[0], ast.Name) and it.args[0].id == par:
+                        bind(st.target, (0, R))
+                        block(st.body, conds)
+                        continue
+                    seq = list(enumerate(inner)) if inner is not None else None
+                elif isinstance(it, ast.Call) and core.src(it.func) == "range" and all(isinstance(a, ast.Constant) for a in it.args):
+                    seq = list(range(*[a.value for a in it.args]))
+                else:
+                    seq = literal_tuple(it)
+                    seq = list(seq) if seq is not None else None
+                if seq is None:
+                    raise AnalysisError(f"{SYM}: loop over '{core.src(it)}' outside the modelled fragment")
+                for item in seq:
+                    bind(st.target, item)
+                    block(st.body, conds)
+            elif isinstance(st, ast.Return):
+                result["ret"] = ev.ev(st.value)
+            else:
+                raise AnalysisError(f"{SYM}: statement '{core.norm(core.src(st), 50)}' outside the modelled fragment")
+
+    block(fn.body, [])
+    got = result.get("ret")
+    if not isinstance(got, list) or len(got) != 3:
+        raise AnalysisError(f"{SYM}: get_lattice_vector_equivalence does not return three flags")
+    pairs = ((1, 2), (2, 0), (0, 1))
+    # atoms as opaque propositions
+    atoms = {}
+
+    def prop(e):
+        return e.replace(lambda x: isinstance(x, (sp.Eq, sp.Ne)), lambda x: atoms.setdefault((sp.Eq(*x.args, evaluate=False) if isinstance(x, sp.Ne) else x), sp.Symbol(f"p{len(atoms)}")) if isinstance(x, sp.Eq) else sp.Not(atoms.setdefault(sp.Eq(*x.args, evaluate=False), sp.Symbol(f"p{len(atoms)}"))))
+
+    from sympy.logic.inference import satisfiable
+
+    for k, (i, j) in enumerate(pairs):
+        def col_is(c, d):
+            return sp.And(*[sp.Eq(sp.Abs(R[m][c]), sp.Integer(1 if m == d else 0), evaluate=False) for m in range(3)])
+
+        want = sp.Or(col_is(i, j), col_is(j, i))
+        g, w = prop(sp.sympify(got[k])), prop(want)
+        same = satisfiable(sp.Xor(g, w)) is False
+        rep.instance("R09h", SYM, "get_lattice_vector_equivalence", f"flag {k}: |column {i}| == e_{j} or |column {j}| == e_{i}", same,
+                     f"for a generic rotation the flag of the axis pair ({'abc'[i]}, {'abc'[j]}) is set under '{core.norm(str(got[k]), 120)}', which is not '|r[:, {i}]| == e_{j} or |r[:, {j}]| == e_{i}': an exchange with a sign (a -> -b, as in C2, Cm, Amm2 settings) is not recognised, the mesh is reduced by rotations it is not invariant under, and the orbits and weights are wrong", line=fn.lineno)
+
+
+_run_main = run
+
+
+def run(rep: core.Report):
+    _run_main(rep)
+    _r09h(rep)
+
+
 def selftest():
     V = []
     b = lambda name, file, old, new, rule, expect="", **kw: V.append(dict(name=name, kind="break", file=file, old=old, new=new, rule=rule, expect=expect, **kw))
@@ -545,4 +657,7 @@ def selftest():
     b("Monkhorst-Pack flag ignores the mesh parity", GP, "is_shift = list(np.logical_xor((diff > 0.1), (self._mesh % 2 == 0)) * 1)", "is_shift = list((diff > 0.1) * 1)", "R09g", "_shift2boolean")
     b("length2mesh aligns the wrong pair", GP, "        for i, pair in enumerate(([1, 2], [2, 0], [0, 1])):", "        for i, pair in enumerate(([0, 1], [2, 0], [1, 2])):", "R09g", "length2mesh")
     n("half-shift threshold written differently", GP, "                is_shift = list(diff > 0.1)", "                is_shift = list(diff > 0.25)")
+    b("axis exchange with a sign not recognised", "phonopy/structure/symmetry.py", "        if (np.abs(r[:, 0]) == [0, 1, 0]).all():", "        if (r[:, 0] == [0, 1, 0]).all():", "R09h", "flag 2")
+    b("axis pair mapped to the wrong flag", "phonopy/structure/symmetry.py", "        if (np.abs(r[:, 1]) == [0, 0, 1]).all():\n            equivalence[0] = True", "        if (np.abs(r[:, 1]) == [0, 0, 1]).all():\n            equivalence[1] = True", "R09h", "flag")
+    n("equivalence test written as a loop over axis pairs", "phonopy/structure/symmetry.py", "        if (np.abs(r[:, 0]) == [0, 1, 0]).all():\n            equivalence[2] = True\n        if (np.abs(r[:, 0]) == [0, 0, 1]).all():\n            equivalence[1] = True\n        if (np.abs(r[:, 1]) == [1, 0, 0]).all():\n            equivalence[2] = True\n        if (np.abs(r[:, 1]) == [0, 0, 1]).all():\n            equivalence[0] = True\n        if (np.abs(r[:, 2]) == [1, 0, 0]).all():\n            equivalence[1] = True\n        if (np.abs(r[:, 2]) == [0, 1, 0]).all():\n            equivalence[0] = True\n", "        unit_vectors = np.eye(3, dtype=int)\n        for k, (i, j) in enumerate(((1, 2), (2, 0), (0, 1))):\n            if (np.abs(r[:, i]) == unit_vectors[j]).all() or (np.abs(r[:, j]) == unit_vectors[i]).all():\n                equivalence[k] = True\n")
     return V
